@@ -52,9 +52,9 @@ def _s(**kw):
 def flavours():
     F = []
 
-    def add(name, client_kind='cert', ckw=None, skw=None, cset=None, sset=None, prep=None):
+    def add(name, client_kind='cert', ckw=None, skw=None, cset=None, sset=None, prep=None, post=None):
         F.append(dict(name=name, client_kind=client_kind, ckw=ckw or {}, skw=skw or {}, cset=cset or {}, sset=sset or {},
-                      prep=prep))
+                      prep=prep, post=post))
     add('tls13-rsa', skw=dict(cred='rsa'))
     add('tls13-ecdsa', skw=dict(cred='ecdsa'))
     add('tls13-clientauth', ckw=dict(cred='client-rsa'), skw=dict(cred='rsa', reqCert=True))
@@ -95,6 +95,8 @@ def flavours():
     add('anon-ecdh-nomutual', client_kind='anon', skw=dict(anon=True),
         cset=dict(maxVersion=(3, 3), keyExchangeNames=['ecdh_anon'], eccCurves=['secp521r1'], keyShares=[]),
         sset=dict(maxVersion=(3, 3), keyExchangeNames=['ecdh_anon'], eccCurves=['secp256r1'], keyShares=[]))
+    # TLS 1.3 post-handshake authentication: the server requests the client's certificate after the handshake
+    add('tls13-pha', ckw=dict(cred='client-rsa'), skw=dict(cred='rsa'), post='pha-request')
     return F
 
 
@@ -297,6 +299,8 @@ def _run_case(case, fl, rng, mem, collect):
     eut = pair.server if eut_is_server else pair.client
     peer = pair.client if eut_is_server else pair.server
     eut_sock = pair.ssock if eut_is_server else pair.csock
+    if case.get('close_socket') is False:
+        eut.closeSocket = False          # public configuration attribute of the endpoint under test
     peer_sock = pair.csock if eut_is_server else pair.ssock
     mut = case.get('mut')
     counter = {'msg': 0, 'rec': 0, 'applied': False, 'what': None}
@@ -425,6 +429,15 @@ def _run_case(case, fl, rng, mem, collect):
     try:
         case['phase_now'] = 'hs'
         r_eut, r_peer = drive2([meter.wrap(eut_hs), peer_hs], socks, on_idle=on_idle)
+        if r_eut[0] == 'exc' and isinstance(r_eut[1], tlserr.TLSLocalAlert) and r_peer[0] == 'ok':
+            # the peer's own call had already returned: let it read, so that it sees (or does not see) the alert
+            def peer_read():
+                for v in peer.readAsync(max=16, min=1):
+                    if v in (0, 1) and not isinstance(v, (bytes, bytearray)):
+                        yield v
+                    else:
+                        return
+            r_peer = drive2([peer_read()], socks, on_idle=on_idle)[0]
         results['hs'] = (r_eut, r_peer)
         phase_done = 'hs'
         if r_eut[0] == 'ok' and r_peer[0] == 'ok' and case['phase'] == 'post':
@@ -432,12 +445,16 @@ def _run_case(case, fl, rng, mem, collect):
             # post-handshake: the peer writes (application data; TLS 1.3 servers also send tickets),
             # optionally something odd, then closes; the EUT reads until the connection ends
             payload = bytes(rng.randrange(256) for _ in range(300))
-            extra = case.get('post_extra')
+            extra = case.get('post_extra') or fl.get('post')
 
             def peer_post():
                 for r in peer.writeAsync(payload):
                     yield r
-                if extra is not None:
+                if extra == 'pha-request':
+                    if not eut_is_server:
+                        for r in peer.request_post_handshake_auth():
+                            yield r
+                elif extra is not None:
                     for m in extra_messages(extra, peer, rng):
                         for r in peer._sendMsg(m):
                             yield r
@@ -500,6 +517,32 @@ def _run_case(case, fl, rng, mem, collect):
         if not eut.closed:
             P.append(('not-closed:%s:%s' % (type(exc).__name__, out['site'][0]),
                       'connection not closed after %s' % type(exc).__name__))
+        # `closed` is True during the whole handshake anyway: what _shutdown really changes in a failing handshake
+        # is the socket (when closeSocket, the default) and the record layer
+        out['sock_closed'] = bool(eut_sock.closed)
+        if eut.closeSocket and not eut_sock.closed and isinstance(exc, (tlserr.TLSError, tlserr.TLSProtocolException)):
+            P.append(('socket-open:%s:%s' % (type(exc).__name__, out['site'][0]),
+                      'the call failed with %s but the socket was not closed (closeSocket=True): no _shutdown'
+                      % type(exc).__name__))
+        # bytes the endpoint queued but never handed to its socket (BufferedSocket write queue; observation only)
+        queued = 0
+        try:
+            queued = sum(len(x) for x in eut.sock._write_queue)
+        except Exception:  # noqa
+            pass
+        out['queued'] = queued
+        if isinstance(exc, tlserr.TLSLocalAlert):
+            d = int(exc.description)
+            seen_by_peer = bool(pcls and pcls[0] == 'RemoteAlert' and pcls[1] == d)
+            on_wire = fatal_alert_in_plaintext(eut_sock.sent_log) == d
+            if queued:
+                P.append(('alert-not-transmitted:%s' % out['site'][0],
+                          'TLSLocalAlert %d raised but %d bytes (the alert) are still in the write queue of the socket '
+                          'wrapper and were never written (closeSocket=%s)' % (d, queued, eut.closeSocket)))
+            elif not seen_by_peer and not on_wire and pcls and pcls[0] in ('AbruptClose', 'Deadlock', 'Closed'):
+                P.append(('alert-not-received:%s' % out['site'][0],
+                          'TLSLocalAlert %d raised but the peer, which was waiting for input, saw %r instead of the alert'
+                          % (d, pcls)))
         orderly = isinstance(exc, tlserr.TLSRemoteAlert) and int(exc.description) == 0
         # (the peer's close_notify is an orderly closure, not a failure: the session stays resumable by design,
         #  see hole_close_notify_keeps_resumable in Props/C08.v)
@@ -642,6 +685,19 @@ def apply_msg_mutation(msg, mut, rng):
         comp = bomb_payload(n_mb)
         body = u16(1) + u24(declared) + u24(len(comp)) + comp
         return [RawMsg(22, hs_wrap(25, body))], 'hs25:cert-bomb(%dMB->%dB,declared=%d)' % (n_mb, len(comp), declared)
+    if name == 'inject-alert':
+        # a (properly protected) alert with an arbitrary level / description just before the peer's next message
+        return [RawMsg(21, bytes([mut[1], mut[2]])), RawMsg(ct, data)], '%s:inject-alert(%d,%d)' % (
+            ('hs%d' % data[0]) if ct == 22 and data else 'ct%d' % ct, mut[1], mut[2])
+    if name == 'cert-der' and ct == 22 and len(data) >= 4 and data[0] == 11:
+        # the (first) certificate of a Certificate message replaced by the given DER
+        der = bytes.fromhex(mut[1])
+        if mut[2]:      # TLS 1.3: context, list of (cert, extensions)
+            ctxlen = data[4]
+            body = bytes(data[4:5 + ctxlen]) + u24(len(der) + 5) + u24(len(der)) + der + b'\x00\x00'
+        else:
+            body = u24(len(der) + 3) + u24(len(der)) + der
+        return [RawMsg(22, hs_wrap(11, body))], 'hs11:cert-der:%s' % mut[3]
     if name == 'set-prefix' and ct == 22 and len(data) >= 4:
         # overwrite the first bytes of the handshake body with the given value (targeted value-level mutation)
         pre = bytes.fromhex(mut[1])
@@ -697,6 +753,9 @@ def mutate_exts(exts, name, rng, index=None):
     t = exts[i][0] if exts else 0
     if name == 'empty' and exts:
         exts[i] = (t, b'')
+    elif name.startswith('body=') and exts:
+        exts[i] = (t, bytes.fromhex(name[5:]))      # a chosen, structurally valid body (value-level mutation)
+        name = 'body'
     elif name == 'emptyvec2' and exts:
         exts[i] = (t, b'\x00\x00')          # present, but its (2-byte length) vector is empty
     elif name == 'emptyvec1' and exts:
@@ -979,7 +1038,98 @@ def second_step_cases(rng, profiles, quick):
             for idx in range(max(1, msgs[occ][5])):
                 out.append(dict(flavour=fi, role=role, seed=rng.randrange(1 << 30), level='msg', mut=('x:' + m, idx),
                                 phase='hs', target=target, tsel=0.0, mem=False, second_step=True,
+                                close_socket=(idx % 2 == 0),
                                 base=dict(calls=base.get('calls', 0), peak=base.get('peak', 0))))
+    return out
+
+
+def alert_cases(rng, profiles, quick):
+    """Value-level mutation of the Alert message: alerts with level in {0, 3, 255} (neither warning nor fatal) and
+    samples of (1, d) / (2, d), injected through the peer's protected channel before EVERY message of the peer in
+    every flavour and role, during the handshake and after it; every second case runs with closeSocket=False."""
+    fl = get_flavours()
+    out = []
+    n = 0
+    for fi in range(len(fl)):
+        for role in ('server', 'client'):
+            base, pts = profiles.get((fi, role), ({}, []))
+            msgs = [p for p in pts if p[0] == 'msg']
+            if not msgs or base.get('outcome') != ('ok',):
+                continue
+            for p in msgs:
+                if p[4] == 'post' and p[2] == 21:
+                    continue
+                vals = [(0, 40), (3, 40), (255, 0)]
+                if not quick:
+                    vals += [(0, 0), (3, 255), (128, 10), (1, 90), (1, 0), (2, 40), (2, 0), (1, 255), (2, 255), (1, 100)]
+                else:
+                    vals.append(rng.choice([(1, 90), (1, 0), (2, 40), (2, 0), (1, 255), (2, 255), (1, 100)]))
+                for lv, ds in vals:
+                    n += 1
+                    out.append(dict(flavour=fi, role=role, seed=rng.randrange(1 << 30), level='msg',
+                                    mut=('inject-alert', lv, ds), phase='post' if p[4] == 'post' else 'hs', target=p[1],
+                                    tsel=0.0, mem=False, close_socket=(n % 2 == 0),
+                                    base=dict(calls=base.get('calls', 0), peak=base.get('peak', 0))))
+    return out
+
+
+def _tlv(t, v):
+    n = len(v)
+    if n < 128:
+        return bytes([t, n]) + v
+    b = n.to_bytes((n.bit_length() + 7) // 8, 'big')
+    return bytes([t, 0x80 | len(b)]) + b + v
+
+
+def odd_certificates():
+    """structurally odd X.509 DER values: (label, der)"""
+    alg = _tlv(0x30, bytes.fromhex('06092a864886f70d01010b') + b'\x05\x00')
+    sig = _tlv(0x03, b'\x00' + b'\x01' * 8)
+    return [
+        ('empty-tbs', _tlv(0x30, _tlv(0x30, b'') + alg + sig)),
+        ('tbs-only-version', _tlv(0x30, _tlv(0x30, _tlv(0xa0, _tlv(0x02, b'\x02'))) + alg + sig)),
+        ('no-sigalg', _tlv(0x30, _tlv(0x30, b''))),
+        ('empty-seq', _tlv(0x30, b'')),
+        ('empty-alg-seq', _tlv(0x30, _tlv(0x30, b'') + _tlv(0x30, b'') + sig)),
+        ('not-a-seq', _tlv(0x04, b'abc')),
+    ]
+
+
+def cert_cases(rng, profiles):
+    """odd certificates in the peer's Certificate message (server cert for a client under test, client cert for a
+    server that requested one), TLS 1.2 and 1.3"""
+    names = [f['name'] for f in get_flavours()]
+    out = []
+    for fname, role in (('tls12-ecdhe', 'client'), ('tls13-rsa', 'client'), ('tls12-clientauth', 'server'),
+                        ('tls13-clientauth', 'server')):
+        fi = names.index(fname)
+        base, pts = profiles[(fi, role)]
+        hit = [p for p in pts if p[0] == 'msg' and p[2] == 22 and p[3] == 11]
+        if not hit:
+            continue
+        for label, der in odd_certificates():
+            out.append(dict(flavour=fi, role=role, seed=rng.randrange(1 << 30), level='msg',
+                            mut=('cert-der', der.hex(), fname.startswith('tls13'), label), phase='hs', target=hit[0][1],
+                            tsel=0.0, mem=False, base=dict(calls=base.get('calls', 0), peak=base.get('peak', 0))))
+    return out
+
+
+def pha_cases(rng, profiles):
+    """post-handshake CertificateRequest (TLS 1.3 PHA) with every extension mutated"""
+    names = [f['name'] for f in get_flavours()]
+    fi = names.index('tls13-pha')
+    base, pts = profiles[(fi, 'client')]
+    hit = [p for p in pts if p[0] == 'msg' and p[2] == 22 and p[3] == 13 and p[4] == 'post']
+    out = []
+    if not hit:
+        return out
+    # body=0004fefefdfd: a well-formed signature_algorithms list naming only schemes nobody implements
+    for m in ('empty', 'emptyvec2', 'ff-fill', 'zero-fill', 'drop', 'trunc1', 'dup', 'innerlen0', 'body=0004fefefdfd',
+              'body=00020000'):
+        for idx in range(max(1, hit[0][5])):
+            out.append(dict(flavour=fi, role='client', seed=rng.randrange(1 << 30), level='msg', mut=('x:' + m, idx),
+                            phase='post', post_extra='pha-request', target=hit[0][1], tsel=0.0, mem=False,
+                            close_socket=(idx % 2 == 0), base=dict(calls=base.get('calls', 0), peak=base.get('peak', 0))))
     return out
 
 
@@ -1017,7 +1167,7 @@ def gen_cases(rng, n, flavour_ids=None):
         else:
             level, mut = 'post', None
         case = dict(flavour=fi, role=role, seed=rng.randrange(1 << 30), level=level if level != 'post' else 'msg',
-                    mut=mut, phase='hs', target=None, tsel=rng.random())
+                    mut=mut, phase='hs', target=None, tsel=rng.random(), close_socket=(rng.random() < 0.5))
         if level == 'post':
             case['phase'] = 'post'
             case['post_extra'] = rng.choice(POST_EXTRA)
